@@ -14,7 +14,13 @@ META = {
                  "replayed on the real encoders (serde Serializer / dlt_args!, payload_from_args in both byte orders) and "
                  "the real decoder (for arg in &msg, payload_as_text); all untruncated, all corrupted, all drifting and a "
                  "sample of the matching executions plus seeded random executions are validated by TLC against the "
-                 "contract VerbTrace.tla (type words, raw bytes, byte order, bounds, prefix property, text grammar on bytes)",
+                 "contract VerbTrace.tla (type words, raw bytes, byte order, bounds, prefix property, text grammar on bytes). "
+                 "Nested shapes (VerbShapes.tla): every untruncated sequence is additionally handed to the serde encoder through "
+                 "~100-190 forms (Option / newtype / ASCII wrapper around every kind, chars, units, unit variants between the "
+                 "arguments, tuples, tuple structs, Vec, maps, structs and enum variants as real Rust types, to_payload, the "
+                 "serializer's SerializeSeq / ... / SerializeStruct helper methods driven directly); TLC predicts refusal (and "
+                 "error) or the decoded slices per form and checks that this design refines the contract's reading of which "
+                 "values a shape hands over (ShapesConform); drifting, sampled and random trees are judged by VerbTrace.tla",
     "design_ref": "DESIGN.md section 6, C18",
     "level_text": "Exhaustive on the model: sequences of <= 2 arguments over 20 abstract arguments (every kind x width, "
                   "data lengths 0/1/3) and of 3 arguments over 7 (quick) / 20 (thorough), each at every truncation "
@@ -23,7 +29,9 @@ META = {
                   "the model's prediction; contract evaluated by TLC on every untruncated, corrupted, drifting, sampled "
                   "and random (0..8 arguments, extreme values, 64 KiB strings) execution, and on directed executions of "
                   "ASCII-typed / invalid UTF-8-typed strings that start with or contain EF BB BF, FF FE, FE FF, lone bytes "
-                  ">= 0x80 followed by 7-bit text (alone and between other arguments, every encoder and byte order).",
+                  ">= 0x80 followed by 7-bit text (alone and between other arguments, every encoder and byte order). Nested "
+                  "shapes: every sequence of <= 2 arguments (and of 3 over 7 / 10) in every form of MCVerbPayload!Forms, plus "
+                  "600 / 8000 seeded random trees of depth <= 3 over the 18 node types and 9 entry points.",
     "level_note": "Trusted: TLC, the driver's value generation and projection, core::fmt / ryu for the decimal text of the "
                   "ORIGINAL numbers (documented exception: TLC integers are 32 bit). Narrowed: text judged only for "
                   "untruncated payloads; float text may be any of Display / Debug / LowerExp / JSON of the original value; "
@@ -35,7 +43,14 @@ META = {
                   "shown as 'ok') stays outside the judged domain, and so do regions with a non-finite float, more than 2 "
                   "floats, or more than 256 KiB of text; a truncated list may yield ANY prefix; booleans are 0/1 of "
                   "width 1, integers 8..64 bit, floats 32/64 bit (128-bit integers, 16-bit floats, VARI/FIXP, SCOD hex/bin "
-                  "are outside the statement). The serde encoder exists for the native byte order only.",
+                  "are outside the statement). The serde encoder exists for the native byte order only. Nested shapes: the "
+                  "encoder may refuse every form that is not a plain sequence of the statement's typed values (nothing is claimed "
+                  "then); an accepted form must decode to the handed values in order, where a char is a UTF-8 string, data-less "
+                  "values (None, unit) hand over nothing, variant / field NAMES are optional arguments (absent, or a UTF-8 string "
+                  "with exactly the name's bytes), the DltScodAscii wrapper around exactly one raw-bytes value is an ASCII-typed string and a tree "
+                  "with anything else below that wrapper is judged for bounds only. The helper methods are reached by naming the "
+                  "trait methods on `&mut Serializer` (type SerializeSeq = Self); no Serialize implementation can reach them on "
+                  "this tree because every constructor refuses.",
 }
 
 
@@ -97,6 +112,35 @@ def binding_selftest(ctx, cases, accepted, known_cases):
     a = json.loads(json.dumps(cases[weak[3]])); t = a[1]["text"]
     i = min(j for j, b in enumerate(t) if 0x21 <= b <= 0x7e); t[i] = t[i] ^ 1 if t[i] ^ 1 in range(0x21, 0x7f) else t[i] ^ 2   # ... changed
     put(a); expect.add(weak[3])
+    # nested shapes: an accepted case that carries an optional name stays accepted when the name argument is taken out of the
+    # decoded list and the text consistently (a format without names); losing a VALUE is rejected; refusing a plain value is rejected
+    def shaped_ok(evs, want_name):
+        e = evs[1] if len(evs) == 2 else None
+        return (e and e["ev"] == "codec" and e.get("via", "plain") != "plain" and len(e["args_out"]) >= 2 and len(str(evs)) < 4000
+                and has_name(e["tops"]) == want_name and (not want_name or e["tops"][0]["t"] == "field"))
+    sh_plain = [k for k in accepted if shaped_ok(cases[k], False)][:2]
+    sh_ref = [k for k in accepted if len(cases[k]) == 2 and cases[k][1]["ev"] == "refused" and cases[k][1].get("via", "plain") != "plain"
+              and len(str(cases[k])) < 4000][:1]
+    if len(sh_plain) < 2 or not sh_ref:
+        raise c.ToolError("binding self-test: not enough accepted nested-shape cases")
+    put(cases[sh_plain[0]])                                           # untouched: stays accepted
+    a = json.loads(json.dumps(cases[sh_plain[1]])); del a[1]["args_out"][-1]
+    put(a); expect.add(sh_plain[1])                                   # a handed value lost
+    a = json.loads(json.dumps(cases[sh_ref[0]])); a[0]["case"] = 10 ** 6 + 2
+    a[1]["via"] = "args"; a[1]["tops"] = [leaf_u8()]
+    put(a); expect.add(10 ** 6 + 2)                                   # a plain value refused
+    def one_field(evs):       # d_struct with one field holding one plain number: decoded [name, value], text "<name> <value>"
+        e = evs[1] if len(evs) == 2 else None
+        return (e and e["ev"] == "codec" and e.get("via") == "d_struct" and len(e["tops"]) == 1 and e["tops"][0]["t"] == "field"
+                and e["tops"][0]["c"][0]["t"] == "leaf" and e["tops"][0]["c"][0]["a"]["kind"] in ("uint", "sint") and len(e["args_out"]) == 2)
+    named = [k for k in accepted if one_field(cases[k])][:2]
+    if len(named) < 2:
+        raise c.ToolError("binding self-test: not enough accepted d_struct cases with one numeric field")
+    a = json.loads(json.dumps(cases[named[0]])); nlen = len(a[1]["tops"][0]["name"])
+    del a[1]["args_out"][0]; a[1]["text"] = a[1]["text"][nlen + 1:]
+    put(a)                                                            # the optional name left out consistently: stays accepted
+    a = json.loads(json.dumps(cases[named[1]])); a[1]["args_out"][0]["raw"][0] ^= 1; a[1]["text"][0] ^= 1
+    put(a); expect.add(named[1])                                      # a name that is present but not the handed one
     kf_case = sorted(known_cases)[:1]
     for k in kf_case:
         put(cases[k])
@@ -112,8 +156,20 @@ def binding_selftest(ctx, cases, accepted, known_cases):
         raise c.ToolError("binding self-test failed: with the known-finding switch off VerbTrace rejected %s, expected %s" % (
             sorted(v2.violations), sorted(expect | set(kf_case))))
     ctx.extra["binding_selftest"] = {"corrupted_cases": len(expect), "rejected": len(v.violations), "untouched_accepted": True,
-                                     "high_bytes_rerendered_accepted": True,
+                                     "high_bytes_rerendered_accepted": True, "optional_name_left_out_accepted": True,
                                      "kf_case_rejected_with_switch_off": len(kf_case)}
+
+
+def leaf_u8():
+    return {"t": "leaf", "a": {"kind": "uint", "w": 1, "raw": [7], "num": [[55]]}, "name": [], "c": []}
+
+
+def has_name(tops):
+    return any(t["name"] or has_name(t["c"]) for t in tops)
+
+
+def tree_shape(tops):
+    return [[t["t"], t["a"]["kind"], t["a"]["w"], len(t["a"]["raw"]), tree_shape(t["c"])] for t in tops]
 
 
 def has_high_and_7bit(a):
@@ -173,8 +229,9 @@ def check(ctx):
     quick = ctx.quick()
     binp = c.build_harness("c18")
     # (a,b) the cursor machine over all sequences x truncation points and single-field corruptions; emission
+    kw = {"workers": int(os.environ["C18_TLC_WORKERS"])} if os.environ.get("C18_TLC_WORKERS") else {}    # (development aid)
     res = c.tlc_must_pass(ctx, "verb", "mc/MCVerbPayload.tla", "VerbPayload_quick.cfg" if quick else "VerbPayload_thorough.cfg",
-                          timeout=3000)
+                          timeout=3000, **kw)
     scns = c.scn_lines(res)
     if not scns:
         raise c.ToolError("TLC emitted no scenarios")
@@ -187,8 +244,9 @@ def check(ctx):
     # (c,d) replay on the real encoders / decoder, random executions
     trace = ctx.path("trace.ndjson")
     nrand = 1500 if quick else 20000
+    nrshape = 600 if quick else 8000
     info = drive(binp, ["--scenarios", scn, "--random", str(nrand), "--huge", "9" if quick else "40", "--directed", "1", "--seed", str(ctx.seed),
-                        "--sample-every", "60" if quick else "400"], trace)
+                        "--random-shapes", str(nrshape), "--sample-every", "60" if quick else "400"], trace)
     # (e) TLC validates the recorded executions against the contract (known-finding action switched by known_findings.jsonl)
     kf = c.kf_switches("C18", [KF])
     if os.environ.get("VERIF_KF_OFF"):          # self-tests only (registered commands never set it): strict contract
@@ -196,16 +254,26 @@ def check(ctx):
     v = c.validate_trace(ctx, "verb", "VerbTrace.tla", trace, consts=kf, timeout=3000, xmx="12g")
     ctx.add_tlc("trace-validation", v.res)
     cases = c.split_cases(trace)
-    ctx.evaluations = info["replayed"] + nrand + info["directed"]
+    ctx.evaluations = info["replayed"] + nrand + info["directed"] + nrshape
     ctx.traces_validated = info["cases"] - len(v.violations)
     ctx.rule = ("an evaluation = one encode -> (truncate | corrupt) -> decode -> render run of the real code for one argument "
                 "sequence, encoder and byte order; non-trivial = at least one argument was decoded; TLC scenarios are distinct "
                 "states of the bounded model (x 3 encoder / byte-order combinations), random cases are distinct by content")
     rnd = set()
+    shaped_validated = {"accepted": 0, "refused": 0, "with_optional_names": 0}
     for k, evs in cases.items():
         if evs[0]["hdr"].get("src") == "random" and len(evs) > 1 and evs[1]["ev"] == "codec" and evs[1]["args_out"]:
             e = evs[1]
             rnd.add((e["enc"], e["be"], e["mode"], e["paylen"], json.dumps([(a["kind"], a["w"], len(a["raw"])) for a in e["args_in"]])))
+        if len(evs) > 1 and evs[1].get("via", "plain") != "plain":
+            e = evs[1]
+            if e["ev"] == "codec":
+                shaped_validated["accepted"] += 1
+                shaped_validated["with_optional_names"] += 1 if has_name(e["tops"]) else 0
+                if evs[0]["hdr"].get("src") == "rshape" and e["args_out"]:
+                    rnd.add(("rshape", e["via"], e["paylen"], json.dumps(tree_shape(e["tops"]))))
+            elif e["ev"] == "refused":
+                shaped_validated["refused"] += 1
     ctx.distinct_nontrivial = info["nontrivial_replayed"] + len(rnd)
     ctx.exhaustive = True
     ctx.extra["tlc_scenarios"] = by_mode
@@ -215,6 +283,8 @@ def check(ctx):
     ctx.extra["drift"] = info["drift"]
     ctx.extra["skipped_not_encodable"] = info["skipped_not_encodable"]
     ctx.extra["random_cases"] = nrand
+    ctx.extra["nested_shapes"] = {"tlc_forms_replayed": info["shaped_replayed"], "drift": info["shape_drift"], "random_trees": nrshape,
+                                  "validated_by_contract": shaped_validated}
     ctx.extra["directed_cases"] = info["directed"]
     ctx.extra["seven_bit_rule"] = seven_bit_counts(cases)
     ctx.extra["trace_events"] = info["lines"]
@@ -225,7 +295,13 @@ def check(ctx):
             "mode_full", "mode_trunc", "mode_corrupt", "enc_serde_le", "enc_pfa_le", "enc_pfa_be",
             "directed_strA_serde_le", "directed_strA_pfa_le", "directed_strA_pfa_be", "directed_strU_pfa_le", "directed_strU_pfa_be",
             "strA_starts_efbbbf", "strA_starts_fffe", "strA_starts_feff", "strA_starts_other_high", "strA_high_after_7bit"]
+    # nested shapes: every node type of the serde data model, every entry point, both outcomes
+    need += ["shape_" + t for t in ("leaf", "char", "none", "unit", "unit_struct", "unit_variant", "some", "newtype", "wrapper", "newtype_variant",
+                                    "seq", "tuple", "tuple_struct", "tuple_variant", "map", "struct", "struct_variant", "field")]
+    need += ["via_" + v for v in ("args", "to_payload", "d_seq", "d_tuple", "d_tuple_struct", "d_tuple_variant", "d_map", "d_struct", "d_struct_variant")]
+    need += ["rshape_accepted", "rshape_refused"]
     missing = [n for n in need if not info["hits"].get(n)]
+    missing += ["nested_shapes:" + k for k, n in shaped_validated.items() if not n]
     missing += ["seven_bit_rule:" + k for k, n in ctx.extra["seven_bit_rule"].items() if not n]
     if missing and not v.violations:      # (a broken tree must end in exit 1, not in a tool error)
         raise c.ToolError("vacuity: paths never exercised: %s" % missing)
